@@ -315,10 +315,11 @@ class FuncAnalysis:
                 if e is not None:
                     out.add(e)
             else:
-                if name in VIEW_ATTRS:
-                    out.add(o)
-                if name in SCALAR_FIELDS:
+                if name in SCALAR_FIELDS and name not in VIEW_ATTRS:
                     continue
+                # field-insensitive local object: a field denotes the object's contents, and (for stores and mutating
+                # calls through the field, e.g. c._gates.append(g)) the object itself
+                out.add(o)
                 out |= self.heap.get(o, set())
         return frozenset(out)
 
